@@ -159,8 +159,10 @@ where
         + Visitable,
     N::EdgeWeight: Sub<Output = N::EdgeWeight> + PositiveMeasure,
 {
-    let mut edge_to = vec![None; network.node_count()];
-    let mut flows = vec![N::EdgeWeight::zero(); network.edge_count()];
+    // Both vectors are indexed by `to_index`, which is bounded by `node_bound` / `edge_bound`
+    // (larger than the counts when the graph has vacant indices).
+    let mut edge_to = vec![None; network.node_bound()];
+    let mut flows = vec![N::EdgeWeight::zero(); network.edge_bound()];
     let mut max_flow = N::EdgeWeight::zero();
     while has_augmented_path(&network, source, destination, &mut edge_to, &flows) {
         let mut path_flow = N::EdgeWeight::max();
